@@ -4,7 +4,7 @@ P=$1; V=$2; NAME=$3; RULES=$4; INIT=$5; NEEDS=$6; D=/tmp/seed/$P.out/$V; T=/veri
 mkdir -p $T; cp $D/patch.diff $T/patch.diff; cp $D/demo_test.go $T/demo_test.go; cp $D/demo_path.txt $T/demo_path.txt; cp $D/README.md $T/AUTHOR_README.md
 python3 - "$T" "$P" "$RULES" "$INIT" "$NEEDS" <<'PY'
 import json,sys,re
-t,p,rules,init,needs=sys.argv[1:6]
+t,p,rules,init,needs=sys.argv[1:6]; p=p[:3]
 readme=open(t+'/AUTHOR_README.md').read()
 first=[l.strip('# ').strip() for l in readme.splitlines() if l.strip()][:1]
 m={"property":p,"expect":"fire" if rules!='-' else "miss","rules":[r for r in rules.split(',') if r and r!='-'],
